@@ -10,7 +10,7 @@ import (
 	"github.com/hack-pad/hackpadfs/mem"
 )
 
-var c17Kinds = []string{"kv-read-only", "kv-write-only", "kv-read-write", "kv-directory", "cache-directory", "cache-file"}
+var c17Kinds = []string{"kv-read-only", "kv-write-only", "kv-read-write", "kv-directory", "cache-directory", "cache-file", "kv-read-write-append", "kv-write-only-append"}
 
 func c17Open() (hackpadfs.File, int) {
 	fs, err := mem.NewFS()
@@ -29,6 +29,10 @@ func c17Open() (hackpadfs.File, int) {
 		f, err = fs.OpenFile("d/f", hackpadfs.FlagReadWrite, 0)
 	case 3:
 		f, err = fs.Open("d")
+	case 6:
+		f, err = fs.OpenFile("d/f", hackpadfs.FlagReadWrite|hackpadfs.FlagAppend, 0)
+	case 7:
+		f, err = fs.OpenFile("d/f", hackpadfs.FlagWriteOnly|hackpadfs.FlagAppend, 0)
 	default:
 		store, err2 := mem.NewFS()
 		verifAssert(err2 == nil, "NewFS failed")
@@ -99,6 +103,19 @@ func c17Call(f hackpadfs.File, id string, c int) error {
 // (A panic is reported by the engine itself as a failure of this harness.)
 func VerifC17Closed() {
 	f, kind := c17Open()
+	// the handle may have been used before it was closed (results a handle memoises must not outlive Close)
+	switch verifChoice("used-before-close", 4) {
+	case 1:
+		verifTag("before-close", "Stat")
+		_, _ = f.Stat()
+	case 2:
+		verifTag("before-close", "Read")
+		_, _ = f.Read(make([]byte, 1))
+	case 3:
+		verifTag("before-close", "Seek+ReadDir")
+		_, _ = hackpadfs.SeekFile(f, 1, io.SeekStart)
+		_, _ = hackpadfs.ReadDirFile(f, 1)
+	}
 	verifAssert(f.Close() == nil, "first Close failed")
 	K := verifParam("K")
 	for i := 0; i < K; i++ {
